@@ -268,6 +268,17 @@ def rate_cut_script(rng):
     return {"kind": "pacing", "rate": rate * 1000, "ival": ival, "qsize": 1024, "streams": [1, 2], "steps": steps}
 
 
+def close_midburst_script(rng, kind):
+    """Close arrives while the pacer is inside the (slow) next writer with more packets of the burst still queued; a packet
+    written afterwards is refused or accepted, but the call comes back."""
+    rate = 50000 if kind == "pacing" else rng.choice(RATES[kind])
+    steps = [{"a": "hold", "ms": 60}]
+    for i in range(6):
+        steps.append(wr(i + 1, rng.choice([1, 2]), 200))
+    steps += [{"a": "waithold"}, {"a": "close"}, wr(50, 1, 100), wr(51, 2, 100)]
+    return {"kind": kind, "rate": rate * 1000, "ival": 5, "qsize": 1024, "streams": [1, 2], "steps": steps}
+
+
 def pool_script(rng, kind):
     """content at release = content at accept while the downstream writer is slow: in every round the pacer's goroutine is
     parked inside the writer of one packet, more packets are accepted meanwhile (pooled payload buffers must not be handed
@@ -526,6 +537,8 @@ def run(ctx):
     no, nsw = (8, 8) if quick else (300, 300)
     x_tb = [overflow_script(rng) for _ in range(no)] + [slow_writer_script(rng, "pacing") for _ in range(nsw)] + [rate_cut_script(rng) for _ in range(2 if ctx.quick else 10)]
     x_gcc = [slow_writer_script(rng, "leaky") for _ in range(nsw // 2)]
+    x_tb += [close_midburst_script(rng, "pacing") for _ in range(2 if quick else 10)]
+    x_gcc += [close_midburst_script(rng, k) for k in ("leaky", "noop") for _ in range(2 if quick else 10)]
     nflap, npool = (6, 12) if quick else (60, 120)
     x_tb += [rate_flap_script(rng) for _ in range(nflap)] + [pool_script(rng, "pacing") for _ in range(npool // 3)]
     pool = [pool_script(rng, "leaky") for _ in range(npool)]
